@@ -26,6 +26,8 @@ for d in sorted(glob.glob(os.path.join(ROOT, "seeded", "C*-*"))):
             break
     note = NOTES.get(name)
     verdict = {"caught": "**caught**", "missed": "missed"}.get(st, st)
+    if r.get("first_pass") == "missed" and st == "caught":
+        verdict = "missed unseen, **caught** after the machinery was strengthened"
     if note:
         verdict += " (" + note + ")"
     print("| %s | %s | %s | %s | %s |" % (name, where, summ, verdict, "; ".join("`%s`" % s[:70] for s in sigs)))
